@@ -87,6 +87,36 @@ fn key_of(hist: &[Value]) -> String {
     s
 }
 
+/// Runs one behaviour in a fresh child process (empty scanner cache): C13.
+fn run_isolated(tables_path: &str, line: &str) -> (u64, bool, Option<Value>) {
+    use std::io::Write;
+    let exe = std::env::current_exe().unwrap();
+    let mut ch = std::process::Command::new(exe)
+        .args(["replay-child", tables_path])
+        .stdin(std::process::Stdio::piped())
+        .stdout(std::process::Stdio::piped())
+        .stderr(std::process::Stdio::null())
+        .spawn()
+        .expect("spawn child");
+    ch.stdin.take().unwrap().write_all(line.as_bytes()).unwrap();
+    let out = ch.wait_with_output().unwrap();
+    match serde_json::from_slice::<Value>(&out.stdout) {
+        Ok(v) => (v["calls"].as_u64().unwrap_or(0), v["saw"].as_bool().unwrap_or(false), if v["bad"].is_null() { None } else { Some(v["bad"].clone()) }),
+        Err(_) => (0, false, Some(json!({"kind": "replay", "difference": format!("child process died: {:?}", out.status), "calls_specified": [], "configurations": [], "inputs": []}))),
+    }
+}
+
+/// `replay-child <tables>`: one behaviour (JSON) on stdin, verdict on stdout
+pub fn main_child(args: &[String]) -> i32 {
+    let t = load_tables(&args[0]);
+    let mut s = String::new();
+    std::io::Read::read_to_string(&mut std::io::stdin(), &mut s).unwrap();
+    let v: Value = serde_json::from_str(&s).expect("behaviour json");
+    let (calls, saw, bad) = run_behaviour(&t, v["hist"].as_array().unwrap());
+    println!("{}", json!({"calls": calls, "saw": saw, "bad": bad}));
+    0
+}
+
 /// Runs one behaviour. Returns (calls executed, saw a token, mismatch report)
 fn run_behaviour(t: &Tables, hist: &[Value]) -> (u64, bool, Option<Value>) {
     let mut w = World::new(&t.syms);
@@ -115,7 +145,9 @@ fn run_behaviour(t: &Tables, hist: &[Value]) -> (u64, bool, Option<Value>) {
         };
         let obs = w.exec(e, &cfg_of, wp);
         calls += 1;
-        if obs.get("res").and_then(|r| r.as_array()).map(|a| a.len() == 3).unwrap_or(false) {
+        if obs.get("res").and_then(|r| r.as_array()).map(|a| a.len() == 3).unwrap_or(false)
+            || obs.get("toks").and_then(|r| r.as_array()).map(|a| !a.is_empty()).unwrap_or(false)
+        {
             saw_token = true;
         }
         if obs.get("panic").and_then(|p| p.as_str()).map(|p| p.starts_with("harness:")).unwrap_or(false) {
@@ -170,6 +202,7 @@ pub fn main(args: &[String]) -> i32 {
     let report_path = args[2].clone();
     let threads: usize = args.get(3).and_then(|s| s.parse().ok()).unwrap_or(16);
     std::fs::create_dir_all(&out_dir).unwrap();
+    let isolate = std::env::var("VERIF_ISOLATE").map(|v| v == "1").unwrap_or(false);
     let stats = Arc::new(Mutex::new(Stats::default()));
     let (tx, rx) = sync_channel::<Vec<String>>(64);
     let rx = Arc::new(Mutex::new(rx));
@@ -193,7 +226,7 @@ pub fn main(args: &[String]) -> i32 {
                 let v: Value = serde_json::from_str(&js).expect("behaviour json");
                 let hist = v["hist"].as_array().unwrap();
                 let amb = hist.iter().any(|e| e.get("nb").and_then(|n| n.as_u64()).unwrap_or(1) > 1);
-                let (calls, saw, bad) = run_behaviour(tables, hist);
+                let (calls, saw, bad) = if isolate { run_isolated(&tables_path, &js) } else { run_behaviour(tables, hist) };
                 local.behaviours += 1;
                 local.calls += calls;
                 if saw {
